@@ -19,11 +19,14 @@ OWNER = {
     "ReloadCall": {"C05"}, "ReloadRet": {"C05"},
     "SubRecv": {"C06"}, "SubClosed": {"C06", "C18"}, "Subscribe": {"C06"}, "SubCancel": {"C06"},
     "RunRet": {"C01", "C04"},
-    "Crash": set(ALL_IDS), "Watchdog": {"C02"}, "Overdue": {"C02"},
+    "Crash": set(ALL_IDS), "Watchdog": {"C02"}, "Overdue": {"C02"}, "StartupOverdue": {"C03"},
 }
+# real-time verdicts of the harness that may be produced by a stalled machine: they count only if the same
+# scenario, re-run ALONE, gives the same verdict again (twice)
+TIMED_KINDS = {"StartupOverdue"}
 SNAPDIAG_OWNER = {"1": {"C02", "C05", "C06", "C18"}, "2": {"C02"}, "3": {"C06"}, "4": {"C02", "C04"}, "5": {"C18"}}
 PROP_OF_MONITOR = {"C01.order": "C01", "C01.exactly_once": "C01", "C01.not_before": "C01", "C03.gate": "C03", "C03.pending": "C03", "C01.cancel_after": "C01", "C03.once": "C03", "C04.nil": "C04", "C04.reports": "C04",
-                   "C04": "C04", "C04.cause": "C04", "C05.shape": "C05", "C05.no_dup": "C05", "C06": "C06", "C06.final": "C06", "C06.sub_entry": "C06",
+                   "C04": "C04", "C04.cause": "C04", "C05.shape": "C05", "C05.no_dup": "C05", "C05.lower": "C05", "C06": "C06", "C06.final": "C06", "C06.sub_entry": "C06",
                    "C18.final": "C18", "C18.bounded": "C18"}
 # monitors whose failures have one canonical key (a specific, documented defect shape)
 CANON_KEY = {"C06.final": "monitor-overwrites-final-state"}
@@ -208,7 +211,7 @@ def run_property(run, pid, families, prop_file, proof_files, n_quick=210, n_thor
             # otherwise only the correspondence is broken
             own_fail = [x for x in lines if x.startswith("PROPFAIL") and scn_of(x) == (seed, fam)
                         and PROP_OF_MONITOR.get(x.split()[1]) == pid]
-            crash = "Crash" in l or "Watchdog" in l or "Overdue" in l
+            crash = "Crash" in l or "Watchdog" in l or "Overdue" in l   # (StartupOverdue included)
             # C02 is the progress property: the model rejects a Quiet event exactly when every model state
             # consistent with the trace still has a mandatory step enabled, i.e. the implementation is
             # observed blocked where the proved progress theorems say it must move: that scenario is the failing input
@@ -220,6 +223,16 @@ def run_property(run, pid, families, prop_file, proof_files, n_quick=210, n_thor
             if own_fail:
                 continue  # reported above with the failing input
             key = "corr:%s:%s:%s" % (kind, fam, seed)
+            if kind in TIMED_KINDS:
+                again = 0
+                for _ in range(2):
+                    rc2, out2 = C.sh([supbin, "-child", "-seed", seed, "-family", fam], timeout=60)
+                    again += 1 if ("EV " + kind) in out2 else 0
+                payload["reproduced_alone"] = "%d/2" % again
+                if again < 2:
+                    run.notes.append("timed verdict %s of scenario %s/%s did not reproduce alone (%d/2): discarded" % (kind, fam, seed, again))
+                    mine_rej -= 1
+                    continue
             if pid == "C02" and kind == "Overdue":
                 # a hang: known finding iff its shape (computed from the scenario itself) is a recorded one AND
                 # the model - which is faithful to the defect - accepted everything else of the trace
@@ -232,7 +245,9 @@ def run_property(run, pid, families, prop_file, proof_files, n_quick=210, n_thor
                           dict(payload, theorem="correspondence B: accept_from (lib/LTS.v) on coq/model/Supervisor.v rejected "
                                "the implementation's trace at the given event"),
                           "implementation trace rejected by the supervisor model at a %s event (scenario %s/%s)%s" % (
-                              kind, fam, seed, " - process crashed / hung" if crash else
+                              kind, fam, seed,
+                              " - real-time verdict of the harness, reproduced 2/2 when re-run alone" if kind in TIMED_KINDS else
+                              " - process crashed / hung" if crash else
                               " - implementation blocked where the model must progress" if stuck else
                               " - %s library goroutines observed, the model allows at most %s here" % mm.groups() if leak else ""),
                           no_input_found=not (crash or stuck or leak))
